@@ -96,8 +96,39 @@ def main():
             health_during.append((st, body))
             time.sleep(0.02)
 
+    abandoned = [0]
+
+    def abandoner():
+        # clients that give up: a complete valid request over a keep-alive connection, closed after a
+        # few milliseconds without reading the answer. A client failure must stay that client's own:
+        # the requests of all other clients, and later ones, are still answered.
+        arnd = random.Random(seed * 7919 + 1)
+        bodies = []
+        for k in range(n):
+            if open(os.path.join(req, "req_%d.kind" % k)).read() == "valid":
+                bodies.append(open(os.path.join(req, "req_%d.body" % k)).read().encode())
+        if not bodies:
+            return
+        bodies.sort(key=len, reverse=True)
+        bodies = bodies[:4]
+        while True:
+            with lock:
+                if not queue:
+                    return
+            body = arnd.choice(bodies)
+            try:
+                sk = socket.create_connection(("127.0.0.1", port), timeout=5)
+                hdr = "POST /solve HTTP/1.1\r\nHost: 127.0.0.1\r\nContent-Type: application/json\r\nContent-Length: %d\r\n\r\n" % len(body)
+                sk.sendall(hdr.encode() + body)
+                time.sleep(arnd.choice([0.001, 0.003, 0.01, 0.03]))
+                sk.close()
+                abandoned[0] += 1
+            except Exception:
+                pass
+            time.sleep(0.01)
+
     if up:
-        ts = [threading.Thread(target=worker) for _ in range(clients)] + [threading.Thread(target=prober)]
+        ts = [threading.Thread(target=worker) for _ in range(clients)] + [threading.Thread(target=prober), threading.Thread(target=abandoner)]
         for t in ts:
             t.start()
         for t in ts:
@@ -180,7 +211,7 @@ def main():
     common = ["V serverup %d" % int(up), "V alive %d" % int(alive),
               "V finalhealth %s %s" % (final_health[0], final_health[1].strip().replace(" ", "_")[:40]),
               "V healthprobes %d %d" % (len(health_during), sum(1 for s, b in health_during if s == "200" and b.strip() == "Healthy")),
-              "V clients %d" % clients]
+              "V clients %d" % clients, "V abandoned %d" % abandoned[0]]
     for k in range(n):
         kind, st, body = results.get(k, (open(os.path.join(req, "req_%d.kind" % k)).read(), "notsent", ""))
         write_case("serve_%d_%d" % (seed, k), k, kind, st, body, common)
